@@ -400,7 +400,7 @@ fn t2q_case(rep: &mut Report, sub: &'static str, case: u64, t: i64) {
         Some(q) => q,
         None => return,
     };
-    if !(q.unit == SECOND) {
+    if !ueq(q.unit, SECOND) {
         rep.violation("C18/t2q/unit", sub, case, format!("Quantity::from(Time({})) has unit {:?}, expected SECOND", t, q.unit));
     }
     if is_edge(t) {
@@ -606,7 +606,7 @@ fn di_conv_case(rep: &mut Report, rng: &mut Rng, sub: &'static str, case: u64) {
     rep.eval();
     match catch(|| Quantity::from(DimensionlessInteger(n))) {
         Ok(q) => {
-            if !(q.unit == DIMENSIONLESS) {
+            if !ueq(q.unit, DIMENSIONLESS) {
                 rep.violation("C18/di2q/unit", sub, case, format!("Quantity::from(DimensionlessInteger({})) has unit {:?}", n, q.unit));
             }
             let d = ulp_dist(q.value, n as f32);
@@ -685,7 +685,7 @@ fn check_cell(rep: &mut Report, name: &str, sub: &'static str, case: u64, det: &
     match (real, orac) {
         (Ok(r), Ok(o)) => {
             rep.tally("mixed_ok_both");
-            if !(r.unit == o.unit) {
+            if !ueq(r.unit, o.unit) {
                 rep.violation(&format!("C18/mixed/unit/{}", name), sub, case, format!("{} [{}]: unit {:?}, converted Quantity operator gives {:?}", name, det, r.unit, o.unit));
             }
             if !same(r.value, o.value) {
